@@ -2,9 +2,12 @@
 
 Every simulated request runs in a real threading.Thread (so threading.local
 behaves exactly as in production) but only the thread that holds the baton
-runs.  Each thread installs sys.settrace; every `line` (or `opcode`) event in a
-traced file is a pre-emption point at which the scheduler - and only the
-scheduler - decides whether another thread continues.  Untraced code (stdlib, C
+runs.  Each thread installs sys.settrace; every `line` event in a traced file is
+a pre-emption point at which the scheduler - and only the scheduler - decides
+whether another thread continues.  With granularity 'instr' the pre-emption
+points are the individual bytecode instructions of the traced files instead
+(sys.monitoring INSTRUCTION events; the older per-frame `f_trace_opcodes`
+mechanism - granularity 'opcode' - crashes CPython 3.12.1 and is not used).  Untraced code (stdlib, C
 code, the harness itself) runs atomically, so no stdlib lock is ever held at a
 pre-emption point.
 
@@ -25,7 +28,10 @@ import random
 import threading
 
 
-class SchedError(Exception):
+from .core import HarnessError
+
+
+class SchedError(HarnessError):
     pass
 
 
@@ -36,6 +42,58 @@ class SchedAbort(BaseException):
 
 
 _ACTIVE = [None]      # the scheduler currently running (one at a time per process)
+
+
+class _Monitor:
+    """sys.monitoring plumbing for granularity 'instr'.  Code objects of the traced files get INSTRUCTION events
+    when they are first entered during a run; at the end of the run all of it is switched off again, so that runs
+    with another granularity (and everything else in the process) execute uninstrumented."""
+    TOOL = 4
+    claimed = False
+    sched = None
+    codes = []
+
+    @classmethod
+    def enable(cls, sched):
+        mon = sys.monitoring
+        if not cls.claimed:
+            mon.use_tool_id(cls.TOOL, 'simsched')
+            mon.register_callback(cls.TOOL, mon.events.PY_START, cls._on_start)
+            mon.register_callback(cls.TOOL, mon.events.PY_RESUME, cls._on_start)
+            mon.register_callback(cls.TOOL, mon.events.INSTRUCTION, cls._on_instruction)
+            cls.claimed = True
+        cls.sched = sched
+        cls.codes = []
+        mon.set_events(cls.TOOL, mon.events.PY_START | mon.events.PY_RESUME)
+        mon.restart_events()
+
+    @classmethod
+    def disable(cls):
+        mon = sys.monitoring
+        mon.set_events(cls.TOOL, 0)
+        for code in cls.codes:
+            mon.set_local_events(cls.TOOL, code, 0)
+        cls.codes = []
+        cls.sched = None
+
+    @classmethod
+    def _on_start(cls, code, offset):
+        s = cls.sched
+        if s is not None:
+            t = s._traced.get(code)
+            if t is None:
+                t = s._traced[code] = code.co_filename.startswith(s.prefixes)
+            if t:
+                sys.monitoring.set_local_events(cls.TOOL, code, sys.monitoring.events.INSTRUCTION)
+                cls.codes.append(code)
+        return sys.monitoring.DISABLE
+
+    @classmethod
+    def _on_instruction(cls, code, offset):
+        s = cls.sched
+        if s is not None:
+            return s._on_instruction(code, offset)
+        return None
 
 
 class no_preempt:
@@ -62,6 +120,8 @@ class Sched:
         self.plan = plan
         self.prefixes = tuple(prefixes)
         self.opcode = (granularity == 'opcode')
+        self.instr = (granularity == 'instr')
+        self._ident2tid = {}
         self.max_steps = max_steps
         self.sems = [threading.Semaphore(0) for _ in range(n)]
         self.done_sem = threading.Semaphore(0)
@@ -79,6 +139,7 @@ class Sched:
         self.hold = 0
         self.abort = False
         self._abort_lock = threading.Lock()
+        self.harness_error = None
         self._left = n
         mode = plan['mode']
         self.mode = mode
@@ -160,6 +221,20 @@ class Sched:
 
     # ---- pre-emption point ------------------------------------------------------------------
     def _point(self, tid, frame):
+        try:
+            self._point_inner(tid, frame)
+        except SchedAbort:
+            raise
+        except BaseException as e:     # noqa  - a fault of the scheduler itself must never reach the code under test as behaviour
+            if type(e).__name__ == 'RunTimeout':
+                raise
+            self.harness_error = e
+            self.abort = True
+            for sem in self.sems:
+                sem.release()
+            raise SchedAbort()
+
+    def _point_inner(self, tid, frame):
         if self.hold:
             return
         self.step += 1
@@ -178,8 +253,10 @@ class Sched:
         to = self._decide(tid)
         if to is None:
             return
+        if frame is None:
+            frame = sys._getframe(3)        # the frame executing the instruction: _point <- _on_instruction <- _Monitor <- it
         code = frame.f_code
-        here = '%s:%s:%d' % (code.co_filename.rsplit('/', 1)[-1], code.co_name, frame.f_lineno)
+        here = '%s:%s:%s' % (code.co_filename.rsplit('/', 1)[-1], code.co_name, frame.f_lineno or 0)     # (no line: clean-up code)
         self.parked_loc[tid] = here
         self.executed.append([self.step, tid, to])
         self.switch_locs.append((here, self.parked_loc[to]))
@@ -217,10 +294,21 @@ class Sched:
             return None
         return glob
 
+    def _on_instruction(self, code, offset):
+        tid = self._ident2tid.get(threading.get_ident())
+        if tid is None:
+            return None
+        self.steps_per_thread[tid] += 1
+        self._point(tid, None)
+        return None
+
     def _body(self, tid, fn):
         self.sems[tid].acquire()
-        tracer = self._make_tracer(tid)
-        sys.settrace(tracer)
+        if self.instr:
+            self._ident2tid[threading.get_ident()] = tid
+        else:
+            tracer = self._make_tracer(tid)
+            sys.settrace(tracer)
         try:
             if not self.abort:
                 fn()
@@ -229,7 +317,10 @@ class Sched:
         except BaseException as e:   # noqa
             self.errors[tid] = e
         finally:
-            sys.settrace(None)
+            if self.instr:
+                self._ident2tid.pop(threading.get_ident(), None)
+            else:
+                sys.settrace(None)
             self.state[tid] = 'done'
             if self.abort:
                 # no baton any more: the last thread to unwind reports completion
@@ -259,14 +350,21 @@ class Sched:
         first = self.first if 0 <= self.first < self.n else 0
         self.cur = first
         _ACTIVE[0] = self
+        if self.instr:
+            _Monitor.enable(self)
         try:
             self.sems[first].release()
             if not self.done_sem.acquire(timeout=timeout):
                 raise SchedError(f'scheduled run did not finish within {timeout}s (step {self.step}, states {self.state})')
         finally:
+            if self.instr:
+                _Monitor.disable()
             _ACTIVE[0] = None
         for t in threads:
             t.join(timeout=5)
+        if self.harness_error is not None:
+            e = self.harness_error
+            raise SchedError(f'scheduler fault at a pre-emption point: {type(e).__name__}: {e}')
         return self
 
     def explicit_plan(self):
